@@ -569,13 +569,24 @@ func K15() *Entry {
 		// singular message attributes named like the fields of a map entry, next to maps of the same message
 		F("value", MsgT("PairEntry")), F("key", MsgT("PairEntry"), NonNull()), F("ByKey", MsgT("PairEntry"), MapOf(), NonNull()),
 		// ... and next to a map of another message
-		F("Widgets", MsgT("Any"), MapOf()))
+		F("Widgets", MsgT("Any"), MapOf()),
+		// nested messages all of whose fields are excluded at that path: nothing is left to convert
+		F("Hidden", MsgT("Any")), F("HiddenValue", MsgT("Any"), NonNull()), F("Hiddens", MsgT("Any"), Rep()), F("HiddenValues", MsgT("Any"), Rep(), NonNull()),
+		F("HiddenDict", MsgT("Any"), MapOf()), F("HiddenValueDict", MsgT("Any"), MapOf(), NonNull()),
+		// ... as a oneof branch and as an embedded message
+		F("PickHidden", MsgT("Any"), In(0)), F("PickText", In(0)), F("Tail", MsgT("Tail"), Embed()), F("TailValue", MsgT("TailValue"), Embed(), NonNull()))
+	WithOneofs(holder, "Pick")
+	tail, tailv := M("Tail", F("TailNote"), F("TailCount", Sc(ir.Int64))), M("TailValue", F("TailValueNote"))
 	// a selected type all of whose declared fields are excluded: its schema consists of injected fields
 	gamma := M("Gamma", F("Secret"), F("Token"))
-	f := file("k15", holder, entry, pair, any, gamma)
+	f := file("k15", holder, entry, pair, any, gamma, tail, tailv)
 	AutoComments(f)
 	c := BaseConfig("Shelf", "LabelEntry", "PairEntry", "Any", "Gamma")
 	c.ExcludeFields = []string{"Gamma.Secret", "Gamma.Token", "Shelf.Entries.key", "Shelf.Entries.value"}
+	c.ExcludeFields = append(c.ExcludeFields, "Shelf.TailNote", "Shelf.TailCount", "Shelf.TailValueNote")
+	for _, n := range []string{"Hidden", "HiddenValue", "Hiddens", "HiddenValues", "HiddenDict", "HiddenValueDict", "PickHidden"} {
+		c.ExcludeFields = append(c.ExcludeFields, "Shelf."+n+".TypeUrl", "Shelf."+n+".Payload")
+	}
 	// a repeated message field handled by custom-type hooks, its children excluded
 	c.CustomTypes = map[string]string{"Shelf.Entries": "verif/types.Boxed"}
 	c.Suffixes = map[string]string{"verif/types.Boxed": "X509Entries"}
